@@ -346,6 +346,16 @@ def run(ctx):
                     t = f.term(b)
                     if t["k"] == "switch" and t.get("ty") == "char" and not asserted(t):
                         out |= {v for v, x in t["targets"]}
+                    if t["k"] == "call" and not asserted(t):
+                        # a pattern kept in a named constant (`const DELIMITERS: [char; 2]`), handed to find / split / contains
+                        for a_ in t.get("args", []):
+                            for x in expr_walk(f.expr(a_, 4)):
+                                if x[0] == "uneval" and (len(x) < 3 or x[2] is None) and x[1] in prog.fns and "char" in str(prog.fns[x[1]].d.get("const_ty", "")):
+                                    v_ = kit.strip_refs(kit.resolve_promoteds(prog, x))
+                                    if v_ and v_[0] == "agg" and v_[1][0] == "array":
+                                        out |= {y[1] for y in v_[2] if y[0] == "const" and isinstance(y[1], int)}
+                                    elif v_ and v_[0] == "const" and isinstance(v_[1], int):
+                                        out.add(v_[1])
         return out
     da, ds = char_consts(ARG_READ), char_consts(STDIN_READ)
     ctx.instance(2, {"argument reader delimiters": sorted(map(chr, da)), "stdin reader delimiters": sorted(map(chr, ds))})
@@ -473,6 +483,33 @@ def run(ctx):
     conds = [expr_str(c) for c in formula.tree_conditions(tree)]
     cal = [short(c).rsplit("::", 1)[-1] for b, t, c in f.calls() if c and c.startswith(INT)]
     ok = any("< 0" in c.replace("0x0", "0") for c in conds) and set(cal) == {"as_i16", "as_u16"}
+    if not ok and set(cal) == {"as_i16", "as_u16"}:
+        # the same decision written the other way round (`if value >= 0 { return as_u16 } ..`): evaluated around every boundary
+        def fits(v_, lo_, hi_):
+            return ("variant", "Ok", "core::result::Result", (v_,)) if lo_ <= v_ <= hi_ else ("variant", "Err", "core::result::Result", (("variant", "IntegerTooLarge", "E", ()),))
+        ok = True
+        for v6 in (-(1 << 31), -40000, -32769, -32768, -32767, -2, -1, 0, 1, 2, 32767, 32768, 65535, 65536, 70000, (1 << 31) - 1):
+            def sub6(e, _v=v6):
+                if e[0] == "call" and str(e[1]).endswith("Deref>::deref") and len(e[2]) == 1 and kit.strip_refs(e[2][0])[:2] == ("arg", 1):
+                    return _v
+                if e[0] == "field" and str(e[2]) == "0" and kit.strip_refs(e[1])[:2] == ("arg", 1):
+                    return _v
+                return None
+            env6 = {"subst": sub6, "prog": prog, "calls": {"Integer::as_i16": (lambda *a, _v=v6: fits(_v, -32768, 32767)), "Integer::as_u16": (lambda *a, _v=v6: fits(_v, 0, 65535))}}
+            try:
+                lab6 = formula.eval_decision(tree, env6)
+                if isinstance(lab6, tuple) and lab6 and lab6[0] == "call" and str(lab6[1]).endswith("::from_residual"):
+                    got6 = ("variant", "Err")
+                else:
+                    got6 = formula.evaluate(lab6, env6) if lab6 is not None else None
+            except (formula.Unknown, formula.Overflow):
+                ok = False
+                break
+            want6 = ("Ok", v6 & 0xFFFF) if -32768 <= v6 <= 65535 else ("Err", None)
+            g6 = (got6[1], got6[3][0] if got6[1] == "Ok" and len(got6) > 3 else None) if isinstance(got6, tuple) and len(got6) >= 2 else None
+            if g6 != want6:
+                ok = False
+                break
     ctx.instance(1)
     ctx.oblig(ok, {"as_u16_cast": conds, "uses": cal}, "negative -> as_i16 as u16, else as_u16")
     if not ok:
